@@ -123,6 +123,9 @@ pub struct FixtureSpec {
     pub tag: u32,
     /// extra usefixtures strings on the fixture function
     pub usefixtures: Vec<usize>,
+    /// names used in the body without being declared (one statement each)
+    #[serde(default)]
+    pub body_uses: Vec<usize>,
 }
 
 #[derive(Clone, Debug, PartialEq, Eq, Hash, Serialize, Deserialize)]
@@ -133,6 +136,8 @@ pub struct TestSpec {
     /// names requested through parametrize(..., indirect=[..]) (list form)
     pub indirect: Vec<usize>,
     pub is_async: bool,
+    #[serde(default)]
+    pub body_uses: Vec<usize>,
 }
 
 #[derive(Clone, Debug, PartialEq, Eq, Hash, Serialize, Deserialize)]
